@@ -211,6 +211,22 @@ for _k, _v in _ADD7.items():
     if _k in CHECKS and _v not in CHECKS[_k]["text"]:
         CHECKS[_k]["text"] += _v
 
+_ADD8 = {
+    "C03": " Added: R1 — the first supported version is proposed only on a path that established that no preference was given or that the preferred version is not in the list.",
+    "C04": " Added: R5 — between reading the requested version and recording the session nothing in the initialize handler can raise (package functions called there must be contained; logging and str/f-string are benign).",
+    "C05": " Added: R1 — the incremental decoder is neither reset nor replaced inside the read loop (its pending bytes belong to the line still arriving).",
+    "C06": " Added: R1 — methods of the client that do the write for the writer loop are summarised: one stdin write per call, never in a loop (a retried or sliced write).",
+    "C07": " Added: R3 — text that comes from the server's `message` is never the template of a `%` / `.format` operation; a message assembled in a mapping, or replaced by the standard text when the server sent none, is followed.",
+    "C08": " Added: R4 — nothing on the unknown-name arm of tools/call and resources/read can raise before the -32602 answer.",
+    "C09": " Added: R14 — no module of the package binds a subscripted typing alias at module level under the name of a class the models are typed by, as long as the fallback resolves annotations by bare name over all loaded modules.",
+    "C11": " Added: R3 — a work list that walks an array body takes and puts back items so that the members come out in the order the server wrote them.",
+    "C12": " Added: R8 — inbound messages are delivered by an awaited send where they were parsed; a non-blocking send whose WouldBlock arm keeps the message for later is a finding.",
+    "C15": " Added: R1 — work lists keep the members' order (shared with C11-R3); R2 — ids are compared like with like: a comparison that converts one side only against an id as it was received (followed through parameters and call sites) is a finding.",
+}
+for _k, _v in _ADD8.items():
+    if _k in CHECKS and _v not in CHECKS[_k]["text"]:
+        CHECKS[_k]["text"] += _v
+
 _COMMON_NOTE = " Reading of the sources: equivalent idioms are normalised on the parsed tree (sa/normalize.py), re-exports are followed, and functions that are not in the reference decomposition (sa/units_snapshot.json) are read at their call sites (sa/inline.py); if that reading is undecided the sources are read as written."
 for _k in CHECKS:
     if _COMMON_NOTE not in CHECKS[_k]["note"]:
